@@ -11,8 +11,8 @@
    `spec_expect` (Model/C11_Check.v, hand-written, independent of the handler code) = the operation the route names with
    the rendered CID / path / peer / options of the environment; `performed calls exp` = calls are exp in order, each
    successful except possibly the last one issued. *)
-From V Require Import Base.Common Base.C11_Http Gen.RestRoutes Gen.RestClient Model.C11_Rest Model.C11_Check Model.C11_Tables
-  Proofs.C11_Rest Proofs.C11_Client Proofs.C11_ClientC08.
+From V Require Import Base.Common Base.C11_Http Base.C11_RouteOrder Gen.RestRoutes Gen.RestClient Model.C11_Rest Model.C11_Check Model.C11_Tables
+  Proofs.RouteOrder Proofs.C11_Rest Proofs.C11_Client Proofs.C11_ClientC08.
 From V Require Model.C08_Codec Model.C08_Query Model.C08_Status.
 From Coq Require Import Permutation.
 Open Scope string_scope.
@@ -20,10 +20,37 @@ Open Scope list_scope.
 
 (* ---- generated tables ---- *)
 
-(* routes(): the generated table is the hand-written one (method, template, handler class) *)
-Theorem rest_table_spec : compile_rest rest_routes = route_spec.
-Proof. exact routes_compile. Qed.
+(* routes(): the generated table is the hand-written one (method, template, handler class) UP TO THE ORDER OF ROUTES THAT
+   CANNOT ANSWER A COMMON REQUEST, and therefore dispatches every request exactly like it.
+   Changed (w13): this used to be the list equality `compile_rest rest_routes = route_spec`. gorilla/mux takes the first
+   registered route that matches, so registration order matters only between routes that some request can match both;
+   the list equality also broke on a behaviour-preserving reorder (e.g. "ID" GET /id after "Version" GET /version).
+   `routes_equiv` (Model/C11_Tables.v) holds iff the second table is a permutation of the first in which every two routes
+   that are not apart (same method, and templates not provably disjoint under StrictSlash matching: tpl_apart) keep their
+   relative order; the order of PinPath /pins/{keyType:ipfs|ipns|ipld}/{path:.*} and Recover /pins/{hash}/recover (fix-S26)
+   is still fixed by it. The second conjunct is what every later theorem uses. *)
+Theorem rest_table_spec :
+  routes_equiv (compile_rest rest_routes) route_spec = true
+  /\ forall m segs, resolve rest_strict_slash (compile_rest rest_routes) m segs false = resolve rest_strict_slash route_spec m segs false.
+Proof. exact (conj routes_compile rest_resolve_is_spec). Qed.
 Print Assumptions rest_table_spec.
+
+(* the general fact behind it, for tables of any size: equivalent tables resolve every request identically *)
+Theorem rest_routes_equiv_dispatch rs1 rs2 : routes_equiv rs1 rs2 = true ->
+  forall strict m segs seen, resolve strict rs1 m segs seen = resolve strict rs2 m segs seen.
+Proof. exact (routes_equiv_resolve rs1 rs2). Qed.
+Print Assumptions rest_routes_equiv_dispatch.
+
+(* templates that are apart are never both matched: neither by match_segs nor by the StrictSlash matcher *)
+Theorem rest_tpl_disjoint_sound t1 t2 : tpl_disjoint t1 t2 = true ->
+  forall segs, match_segs t1 segs <> None -> match_segs t2 segs = None.
+Proof. exact (tpl_disjoint_sound t1 t2). Qed.
+Print Assumptions rest_tpl_disjoint_sound.
+
+Theorem rest_tpl_apart_sound t1 t2 : tpl_apart t1 t2 = true ->
+  forall strict segs, path_match strict t1 segs <> PNo -> path_match strict t2 segs = PNo.
+Proof. exact (tpl_apart_path_match t1 t2). Qed.
+Print Assumptions rest_tpl_apart_sound.
 
 (* NewAPIWithHost: the basic-auth wrapper is outermost, then CORS, then the router (StrictSlash, notFoundHandler) *)
 Theorem rest_chain_spec : rest_handler_chain = ["basicAuthHandler"; "cors.New.Handler"; "router"]
